@@ -50,3 +50,13 @@ func (z *Zipper) VerifCanonOld(v ssa.Value, ctx ssa.Instruction) string {
 func (z *Zipper) VerifCanonNew(v ssa.Value, ctx ssa.Instruction) string {
 	return z.newCanon.NormalizeOperand(v, ctx)
 }
+
+// VerifBeforeEnforce, when set, is called with the zipper right before enforceControlFlow runs, so
+// that the instruction maps can be copied before pairs are undone.
+var VerifBeforeEnforce func(z *Zipper)
+
+func verifBeforeEnforce(z *Zipper) {
+	if VerifBeforeEnforce != nil {
+		VerifBeforeEnforce(z)
+	}
+}
